@@ -407,7 +407,7 @@ func listTerm(items []string) string { return "[" + strings.Join(items, ";") + "
 func diagsTerm(ds []bcl.Diag) string {
 	items := make([]string, len(ds))
 	for i, d := range ds {
-		items[i] = fmt.Sprintf("(%s,%s)", posTerm(d.Start), posTerm(d.End))
+		items[i] = fmt.Sprintf("(%s,%s,%s)", posTerm(d.Start), posTerm(d.End), vh.BytesTerm(d.Msg))
 	}
 	return listTerm(items)
 }
